@@ -1,3 +1,22 @@
+/// Verification hook (guard: `--cfg iref_verif`).
+///
+/// With the guard off this is exactly the constant `$c`. With the guard on the
+/// constant is rebuilt at the use site, because the Kani model checker cannot
+/// compile a constant fat pointer to a custom unsized type.
+#[cfg(not(iref_verif))]
+macro_rules! verif_static {
+	($c:expr, $alt:expr) => {
+		$c
+	};
+}
+
+#[cfg(iref_verif)]
+macro_rules! verif_static {
+	($c:expr, $alt:expr) => {
+		unsafe { $alt }
+	};
+}
+
 pub(crate) mod common;
 pub mod iri;
 pub mod uri;
